@@ -463,13 +463,14 @@ class SimNet:
     def _udp_out(self, endpoint, data, addr):
         ip, port = addr
         ip = self.dns.get(ip, ip)          # sendto() resolves host names; replies carry the numeric address
-        if ip == "255.255.255.255":
+        if ip == "255.255.255.255" or str(ip).endswith(".255"):
+            # limited broadcast, or a directed broadcast to the segment (every simulated host is on it)
             targets = list(self.udp_hosts.items())
         else:
             targets = [(ip, self.udp_hosts[ip])] if ip in self.udp_hosts else []
         for hip, host in targets:
             host.on_probe(self, endpoint, data, port, hip)
-        if ip != "255.255.255.255":
+        if ip != "255.255.255.255" and not str(ip).endswith(".255"):
             # hosts that talk to the prober's socket although the probe was not addressed to them (another
             # prober's broadcast made them answer, a scanner, a misdirected reply)
             for hip, host in list(self.udp_hosts.items()):
